@@ -132,6 +132,7 @@ impl Templates {
         named.push(("missing", E::missing_field(PH).to_string()));
         named.push(("unknown", E::unknown_field(PH).to_string()));
         named.push(("shape", E::unsupported_shape(PH).to_string()));
+        named.push(("shapeexp", E::unsupported_shape_with_expected(PH, &"e1 or e2").to_string()));   // a message that ends in a full stop
         named.push(("format", E::unsupported_format(PH).to_string()));
         named.push(("type", E::unexpected_type(PH).to_string()));
         named.push(("value", E::unknown_value(PH).to_string()));
